@@ -115,6 +115,53 @@ def tree_classes(sut, element):
     return list(out.values())
 
 
+def instances_as_input(ctx, sut, fpm, element, value, result, res_fp, case, step):
+    """Models are also built from models (`Outer({"inner": Inner({...})})` is how the DSL is used): the value
+    handed in is then a model instance.  Validating it again must leave it unchanged and give an equal
+    result, whether it is the whole value or a member of it."""
+    held = fpm.fp_result(result)
+    outcome, again, _ = sut.call(element, result)
+    ctx.count("input.model_instance")
+    ctx.count("calls")
+    if fpm.fp_result(result) != held:
+        ctx.witness("input_mutated", {**case, "step": step, "value": value},
+                    "a model instance passed as the value was changed by validating it")
+    elif (outcome, fpm.fp_result(again) if outcome == "ok" else None) != res_fp:
+        ctx.witness("not_repeatable", {**case, "step": step, "value": value},
+                    f"validating the model built from a value gave {outcome} / a result different from that model")
+    if not isinstance(value, dict):
+        return
+    import re  # pylint: disable=import-outside-toplevel
+
+    props = list((element.properties or {}).values())
+    patterns = list(getattr(element, "patternProperties", None) or {}) \
+        if not isinstance(getattr(element, "patternProperties", None), sut.NotPassed) else []
+    for prop in props:
+        inner = prop.element
+        # only members governed by that class ALONE (a pattern matching the name, or one property object
+        # under two names, brings a second element which is entitled to its own view of a non-JSON value)
+        if any(re.search(pattern, prop.source) for pattern in patterns) or \
+                sum(1 for other in props if other is prop or other.source == prop.source) != 1:
+            continue
+        if isinstance(inner, sut.ObjectMeta) and isinstance(value.get(prop.source), dict):
+            out_inner, instance, _ = sut.call(inner, copy.deepcopy(value[prop.source]))
+            if out_inner != "ok" or not isinstance(instance, sut.Object):
+                continue
+            held_inner = fpm.fp_result(instance)
+            mixed = {**copy.deepcopy(value), prop.source: instance}
+            outcome, again, _ = sut.call(element, mixed)
+            ctx.count("input.nested_model_instance")
+            ctx.count("calls")
+            if fpm.fp_result(instance) != held_inner:
+                ctx.witness("input_mutated", {**case, "step": step, "value": value},
+                            f"the model instance passed as member {prop.source!r} was changed by the call")
+            elif (outcome, fpm.fp_result(again) if outcome == "ok" else None) != res_fp:
+                ctx.witness("not_repeatable", {**case, "step": step, "value": value},
+                            f"member {prop.source!r} given as a model instance instead of its data: {outcome} / "
+                            "a different result")
+            break
+
+
 def run_history(ctx, sut, monitors, fpm, element, twin_builder, values, case, f25_possible):
     before = monitors.PuritySnapshot(element)
     others = [cls for cls in tree_classes(sut, element) if cls is not element]
@@ -182,6 +229,9 @@ def run_history(ctx, sut, monitors, fpm, element, twin_builder, values, case, f2
                             f"repeating a value gave {str(res_fp)[:300]} after {str(first_seen[key])[:300]}")
         else:
             first_seen[key] = res_fp
+        if outcome == "ok" and step % 4 == 1 and isinstance(element, sut.ObjectMeta) and isinstance(result, element) \
+                and not f25_possible:
+            instances_as_input(ctx, sut, fpm, element, pristine, result, res_fp, case, step)
         if outcome == "ok" and step % 3 == 0 and not isinstance(value, sut.NotPassed) \
                 and mutate_result(result):
             # (results may legitimately BE the input object, e.g. under `not`;
